@@ -23,7 +23,7 @@ ASSUMPTIONS = ["a scenario whose written citations are not all extracted at thei
                "opinion window for 'pin cite within the opinion' is read from eyecite.resolve.MAX_OPINION_PAGE_COUNT"]
 FLOORS = {"quick": {"scenarios_decided": 3000, "ref:short": 1500, "ref:supra": 1500, "ref:id": 1500,
                     "colliding_scenarios": 500, "must_stay_unresolved_ids": 500, "exhaustive_small": 2588, "bare_short_forms": 300, "id_range_pins": 300, "accented_names": 300,
-                    "cases_with_variant_spellings": 800, "db_string_scenarios": 1300, "supra_before_punctuation_cluster": 150, "party_names_not_capitalised": 100, "long_prose_before_citation": 300, "nominative_reporter_party_names": 200},
+                    "cases_with_variant_spellings": 800, "db_string_scenarios": 1300, "supra_before_punctuation_cluster": 150, "hard_wrapped_full_citations": 150, "party_names_not_capitalised": 100, "long_prose_before_citation": 300, "nominative_reporter_party_names": 200},
           "thorough": {"scenarios_decided": 200000, "ref:short": 100000, "ref:supra": 100000, "ref:id": 100000,
                        "colliding_scenarios": 50000, "must_stay_unresolved_ids": 50000,
                        "exhaustive_small": 20956}}
@@ -192,6 +192,11 @@ class Scenario:
         lead = r.choice(LEAD)
         core = f"{c['vol']} {r.choice(c['spell'])} {c['page']}"
         s = f"{lead}{c['P']} v. {c['D']}, "
+        if r.random() < 0.08:
+            # hard-wrapped text: a line break instead of one of the blanks between the party names and the citation
+            k = r.choice([i for i, ch in enumerate(s) if ch == " " and i >= len(lead)])
+            s = s[:k] + "\n" + s[k + 1:]
+            self.wrapped = getattr(self, "wrapped", 0) + 1
         st = len(self.text) + len(s)
         s += core
         if r.random() < 0.3:
@@ -397,6 +402,7 @@ def judge(sc, rec, case):
     rec.count("cases_with_variant_spellings", sum(1 for c in cases if c["cited"] and len(c["spell"]) > 1))
     rec.count("nominative_reporter_party_names", sum(1 for c in cases if c["cited"] and c["D"] in NOMINATIVE_NAMES))
     rec.count("long_prose_before_citation", getattr(sc, "long_fill", 0))
+    rec.count("hard_wrapped_full_citations", getattr(sc, "wrapped", 0))
     rec.count("supra_before_punctuation_cluster", getattr(sc, "supra_clusters", 0))
     rec.count("party_names_not_capitalised", sum(1 for c in cases if c["cited"] and not c["P"][:1].isupper()))
     rec.count("accented_names", sum(1 for c in cases for n in (c["P"], c["D"]) if not n.isascii()))
